@@ -337,6 +337,9 @@ func (c *tableCtx) route(t *rapid.T, id string, siblings []model.RouteSpec) mode
 		r.Consumes = c.mediaList(t, "consumes")
 		r.Produces = c.mediaList(t, "produces")
 	}
+	if chance(t, "pathform", 25) {
+		r.PathForm = rapid.IntRange(1, 3).Draw(t, "pathformkind")
+	}
 	if cfg.Conds && chance(t, "hascond", 15) {
 		n := rapid.IntRange(1, 2).Draw(t, "nconds")
 		for i := 0; i < n; i++ {
@@ -433,6 +436,13 @@ func Table(t *rapid.T, cfg Cfg) model.TableSpec {
 		}
 		seenRoot[root.String()] = true
 		s := model.ServiceSpec{Root: root}
+		if chance(t, "rootform", 25) {
+			if len(root) == 0 {
+				s.RootForm = 2
+			} else {
+				s.RootForm = 1
+			}
+		}
 		if cfg.Media && chance(t, "svcmedia", 20) {
 			s.Consumes = c.mediaList(t, "svcconsumes")
 			s.Produces = c.mediaList(t, "svcproduces")
